@@ -115,6 +115,13 @@ C08_FrequenciesKeepFileOrder(feed, r) ==
                                                                    exact |-> ExactTimesOf(Digit(Cell(mine[k], "exact_times")))]]
                                ELSE <<>>)
 
+(* a service's added and removed dates keep the row order of calendar_dates.txt *)
+C08_ExceptionDatesKeepFileOrder(feed, r) ==
+    LET exc == FilterSeq(LAMBDA row : IsSome(DateOf(Cell(row, "date"))) /\ ~Missing(row, {"service_id", "date", "exception_type"}), Rows(feed, "calendar_dates.txt"))
+        DatesOf(id, typ) == LET rows == FilterSeq(LAMBDA row : Tok(Cell(row, "service_id")) = id /\ Digit(Cell(row, "exception_type")) = typ, exc)
+                            IN [k \in DOMAIN rows |-> Val(DateOf(Cell(rows[k], "date")))]
+    IN \A i \in DOMAIN r.services : r.services[i].added = DatesOf(r.services[i].id, 1) /\ r.services[i].removed = DatesOf(r.services[i].id, 2)
+
 (* ------------------------------------------------------------------ C09 *)
 NoWarnings(r) == [r EXCEPT !.warnings = <<>>]
 C09_Inert(r, rBase) == NoWarnings(r) = NoWarnings(rBase)
